@@ -97,7 +97,7 @@ macro_rules! step_harness {
     ($name:ident, $f:ident, $hl:expr, $pl:expr, $dl:expr, $plen:expr, $pat:expr, $mask:expr, $k:expr, $unw:expr) => {
         #[kani::proof]
         #[kani::unwind($unw)]
-        fn $name() {
+        pub fn $name() {
             $f::<$hl, $pl, $dl, $plen>($pat, $mask, $k);
         }
     };
